@@ -160,6 +160,7 @@ class Fn:
         self.root = j.get('root', self.id)
         self.parent = j.get('parent')
         self.name = j.get('name', '')
+        self.bounds = j.get('bounds', [])
         n = len(self.blocks)
         self.n = n
         self.cleanup = [b['c'] for b in self.blocks]
@@ -190,9 +191,10 @@ class Fn:
                     self.cancel_edges.append((i, t['drop']))
             elif k == 'assert':
                 s = [t['t']]
-            # de-duplicate, keep order
+            # de-duplicate, keep order; edges into empty `unreachable` blocks (exhaustive-match fallbacks) are not real
             seen = set()
-            self.succ[i] = [x for x in s if not (x in seen or seen.add(x)) and not self.blocks[x]['c']]
+            self.succ[i] = [x for x in s if not (x in seen or seen.add(x)) and not self.blocks[x]['c']
+                            and not (self.blocks[x]['t']['k'] == 'unreachable')]
         self.pred = [[] for _ in range(n)]
         for i in range(n):
             for x in self.succ[i]:
@@ -539,6 +541,10 @@ class Program:
                     self.trait_impls[it['trait_item']].append((im['self'], it['def']))
         self._cg = None
         self._may = None
+        self._resolve_memo = {}
+        self._implementors = None
+        self._param_memo = {}
+        self._inst = None
         self.n_yields = sum(len(f.yields) for f in self.fns.values())
         self.n_calls = sum(len(f.calls) for f in self.fns.values())
 
@@ -624,6 +630,14 @@ class Program:
 
     def resolve(self, c):
         """possible targets (ids or external paths) of a call"""
+        key = (c.fn.id, c.bb)
+        r = self._resolve_memo.get(key)
+        if r is None:
+            r = self._resolve(c)
+            self._resolve_memo[key] = r
+        return r
+
+    def _resolve(self, c):
         f = c.f
         if 'path' not in f:
             return ['<indirect>']
@@ -639,8 +653,68 @@ class Program:
                     m = [d for (s, d) in impls if s.get('h') == h]
                     if m:
                         return m
+                if h == 'param':
+                    heads = self.param_candidates(c.fn, st.get('s'))
+                    if heads is not None:
+                        m = [d for (s, d) in impls if s.get('h') in heads]
+                        # a provided (default) trait method body may also be the target
+                        return m + ([p] if p in self.fns and not m else [])
                 return [d for (s, d) in impls] + ([p] if p in self.fns else [])
         return [p]
+
+    def implementors(self, trait):
+        if self._implementors is None:
+            t = defaultdict(set)
+            for im in self.impls:
+                if im['trait']:
+                    t[im['trait']].add(im['self'].get('h'))
+            self._implementors = t
+        return self._implementors.get(trait, set())
+
+    def param_candidates(self, fn, pname):
+        """in-crate type heads that can instantiate type parameter `pname` inside fn:
+        (1) heads observed at that argument position of the impl's self ADT anywhere in the program's types,
+        else (2) in-crate types implementing every in-crate trait the parameter is bounded by. None = unknown."""
+        root = self.fns.get(fn.root, fn)
+        key = (root.id, pname)
+        if key in self._param_memo:
+            return self._param_memo[key]
+        res = None
+        isf = root.impl_self
+        if isf and isf.get('h') in self.adts:
+            args = [a for a in isf.get('a', []) if not a.startswith("'")]
+            if pname in args:
+                pos = args.index(pname)
+                heads = self.instantiations(isf['h'], pos)
+                conc = set(h for h in heads if '::' in h)
+                if conc:
+                    res = conc
+        if res is None:
+            traits = [t for (pn, t) in root.bounds if pn == pname and self.implementors(t)]
+            if traits:
+                cand = None
+                for t in traits:
+                    cand = self.implementors(t) if cand is None else (cand & self.implementors(t))
+                res = cand
+        self._param_memo[key] = res
+        return res
+
+    def instantiations(self, adt, pos):
+        if self._inst is None:
+            self._inst = defaultdict(set)
+            strs = set()
+            for f in self.fns.values():
+                for l in f.locals:
+                    strs.add(l['s'])
+            for a in self.adts.values():
+                for v in a['variants']:
+                    for fl in v['fields']:
+                        strs.add(fl['ty']['s'])
+            for st in strs:
+                for (name, args) in generic_apps(st):
+                    for i, a in enumerate(args):
+                        self._inst[(name, i)].add(norm_ty(a))
+        return self._inst.get((adt, pos), set())
 
     def may_reach(self):
         """fn id -> (set of local fn ids reachable, set of external paths reachable) transitive"""
@@ -759,6 +833,46 @@ class Program:
                 if any(pred(t) for t in self.resolve(c)) or pred(c.path):
                     out.append(c)
         return out
+
+
+def generic_apps(s):
+    """all `path<arg, ...>` applications inside a printed type: yields (path, [non-lifetime args])"""
+    out = []
+    i = 0
+    n = len(s)
+    while i < n:
+        m = re.compile(r'[A-Za-z_][A-Za-z0-9_:]*<').search(s, i)
+        if not m:
+            break
+        name = m.group(0)[:-1]
+        j = m.end()
+        depth = 1
+        args = []
+        cur = ''
+        k = j
+        while k < n and depth > 0:
+            ch = s[k]
+            if ch == '<' or ch == '(' or ch == '[':
+                depth += 1
+                cur += ch
+            elif ch == '>' and k > 0 and s[k - 1] == '-':
+                cur += ch
+            elif ch == '>' or ch == ')' or ch == ']':
+                depth -= 1
+                if depth > 0:
+                    cur += ch
+            elif ch == ',' and depth == 1:
+                args.append(cur.strip())
+                cur = ''
+            else:
+                cur += ch
+            k += 1
+        if cur.strip():
+            args.append(cur.strip())
+        args = [a for a in args if not a.startswith("'")]
+        out.append((name.rstrip(':'), args))
+        i = m.end()
+    return out
 
 
 class AnchorLost(Exception):
@@ -1106,6 +1220,49 @@ def place_base_adt(fn, place):
                 return None
         return cur
     return ty_head_adt(ty)
+
+
+def place_type_str(fn, place):
+    """printed type of a place (best effort): follows Ok.0 / Err.0 / Some.0 downcasts on std enums, derefs of references
+    and named fields of in-crate ADTs. Returns None when unknown."""
+    cur = fn.locals[place[0]]['s']
+    variant = None
+    for e in place[1]:
+        if cur is None:
+            return None
+        if e == '*':
+            m = re.match(r"^&(?:'[a-z_]+ )?(?:mut )?(.*)$", cur)
+            if m:
+                cur = m.group(1)
+            else:
+                apps = generic_apps(cur)
+                cur = apps[0][1][0] if apps and apps[0][1] and cur.startswith(('std::boxed::Box<', 'std::sync::Arc<')) else None
+        elif isinstance(e, dict) and 'v' in e:
+            variant = e['n']
+        elif isinstance(e, dict) and 'f' in e:
+            apps = generic_apps(cur)
+            head = re.match(r'^([A-Za-z0-9_:]+)', cur)
+            head = head.group(1) if head else None
+            args = apps[0][1] if apps and cur.startswith(apps[0][0]) else []
+            if head in ('std::result::Result',) and variant in ('Ok', 'Err') and len(args) >= 2:
+                cur = args[0] if variant == 'Ok' else args[1]
+            elif head in ('std::option::Option', 'std::task::Poll') and variant in ('Some', 'Ready') and args:
+                cur = args[0]
+            elif head in fn.prog.adts:
+                a = fn.prog.adts[head]
+                fld = None
+                for v in a['variants']:
+                    if variant is None or v['name'] == variant or len(a['variants']) == 1:
+                        for ff in v['fields']:
+                            if ff['name'] == (e['n'] or str(e['f'])):
+                                fld = ff
+                cur = fld['ty']['s'] if fld else None
+            else:
+                cur = None
+            variant = None
+        else:
+            return None
+    return cur
 
 
 def ty_head_adt(ty):
